@@ -499,7 +499,15 @@ func (e *Engine) shortPkg(path string) string {
 
 func (e *Engine) allFunctionNames(pkgPath string) []string {
 	var out []string
-	for n := range e.fnByName[pkgPath] {
+	for n, fn := range e.fnByName[pkgPath] {
+		if ct := e.contractFor(fn); ct != nil && ct.Inline {
+			// verified in the context of its callers; allContractErrors reports it if no caller executed it
+			e.inlineOnly[funcDisplayName(fn)] = true
+			continue
+		}
+		if fn.Name() == "init" || strings.HasPrefix(fn.Name(), "init#") {
+			continue // package initialisers run before any goroutine exists
+		}
 		out = append(out, n)
 	}
 	sort.Strings(out)
